@@ -88,6 +88,24 @@ impl Boundary {
                 format!("fn unwrap_or(x: Option[{s}], d: {s}) -> {s} {{\n    match x {{\n        Some(y) => y,\n        None => d,\n    }}\n}}\n"),
             );
         }
+        // the script constructs the value and hands it to the host (needs the
+        // Option of the term in the catalogue for its sink function)
+        let opt = Desc::Opt(Box::new(t.desc.clone()));
+        if let Some(o) = self.cat.iter().find(|o| o.desc == opt) {
+            // checked by the sink of the Option term against the value `Some(value of t)`
+            // only when both terms generate the same payload for the same k: edge k of
+            // Option[T] is Some(edge k-1 of T), so the route sends `src_o()` apart instead
+            add(
+                "script-matches->host",
+                "unwraph",
+                Shape::P,
+                &["src", "sink"],
+                format!(
+                    "fn unwraph(x: {s}) {{\n    match src_{oi}() {{\n        Some(y) => sink_{oi}(Some(y)),\n        None => sink_{oi}(None),\n    }}\n}}\n",
+                    oi = o.idx
+                ),
+            );
+        }
         match &t.desc {
             Desc::Res(x, y) => add(
                 "script-constructs-Result",
@@ -147,8 +165,8 @@ impl Boundary {
         }
         let nvals = match args.opt("values").and_then(|v| v.parse::<usize>().ok()) {
             Some(n) => n,
-            None if args.thorough() => 1000,
-            None => 32.max(t.n_edges + 8),
+            None if args.thorough() => 5000,
+            None => 64.max(t.n_edges + 32),
         };
         let mut m = Mon::new(args.seed, &t.roto, zst);
         // one script with every route; if it does not compile, fall back to one
@@ -296,7 +314,7 @@ impl Boundary {
     }
 
     fn ctx_case(&self, j: usize, out: &mut CaseOut, args: &Args) {
-        let nvals = if args.thorough() { 400 } else { 40 };
+        let nvals = if args.thorough() { 4000 } else { 64 };
         let mut m = Mon::new(args.seed, "ctx", false);
         let info = (self.ctxs[j])(&mut m, nvals);
         out.hash = hash_str(&format!("{}{}{}", info.family, info.repr, info.order));
